@@ -49,6 +49,9 @@ impl Diagnostic {
         lookup: &line_col::LineColLookup,
         e: ParseError,
     ) -> Option<Diagnostic> {
+        #[cfg(feature = "verif-hooks")]
+        verif_record_expected(&e);
+
         match e {
             lalrpop_util::ParseError::InvalidToken { location } => Some(Diagnostic {
                 kind: DiagnosticKind::Error,
@@ -89,6 +92,29 @@ impl Diagnostic {
             lalrpop_util::ParseError::User { error: _ } => None, // User errors already produced a Diagnostic
         }
     }
+}
+
+#[cfg(feature = "verif-hooks")]
+thread_local! {
+    static VERIF_EXPECTED: std::cell::RefCell<Vec<Vec<String>>> = std::cell::RefCell::new(Vec::new());
+}
+
+#[cfg(feature = "verif-hooks")]
+fn verif_record_expected(e: &ParseError) {
+    match e {
+        lalrpop_util::ParseError::UnrecognizedEOF { expected, .. }
+        | lalrpop_util::ParseError::UnrecognizedToken { expected, .. } => {
+            VERIF_EXPECTED.with(|v| v.borrow_mut().push(expected.clone()));
+        }
+        _ => (),
+    }
+}
+
+/// Verification hook: drain the raw expectation vectors seen by `from_parse_error`
+/// on this thread since the last call (one entry per formatted syntax error)
+#[cfg(feature = "verif-hooks")]
+pub fn verif_take_expected() -> Vec<Vec<String>> {
+    VERIF_EXPECTED.with(|v| std::mem::take(&mut *v.borrow_mut()))
 }
 
 // TODO: replace empty (or EOF?)!
